@@ -108,8 +108,8 @@ def _e3_plan(prop, tier):
         return {
             "rule": E3_RULE,
             "batches": [
-                dict(base, label="pool-base", n=110 if q else 6000, kwargs={"profile": "base", "schedules": 3 if q else 6}),
-                dict(base, label="pool-edges", n=70 if q else 4000, kwargs={"profile": "edges", "schedules": 3 if q else 6}),
+                dict(base, label="pool-base", n=64 if q else 6000, kwargs={"profile": "base", "schedules": 3 if q else 6}),
+                dict(base, label="pool-edges", n=48 if q else 4000, kwargs={"profile": "edges", "schedules": 3 if q else 6}),
                 {"engine": "e4_layout", "label": "layout", "n": 24 if q else 1500, "kwargs": {"ops": 14}, "timeout": 900.0},
                 {"engine": "e4_layout", "label": "layout-sweep", "n": 32 if q else 256, "indexed": True, "kwargs": {}, "timeout": 1800.0},
             ],
@@ -215,3 +215,70 @@ def plan_for(prop, tier):  # noqa: F811
     if prop == "C03":
         return _c03_plan(prop, tier)
     return _plan_prev3(prop, tier)
+
+
+def _c08_plan(prop, tier):
+    q = tier == "quick"
+    return {
+        "rule": (
+            "C08: E3 pool-sim profile preserve: one run = generated library modules (functions in snake / Camel / mixedCase / "
+            "_private style, duplicates, classes with self-using, self-less, static and class methods, class and module "
+            "variables; partly used internally, partly unused) plus 1-3 client modules passed with --preserve that reference "
+            "a drawn subset by from-import (plain, aliased, import-only), module attribute (plain / aliased module) and "
+            "attribute chains (Class.method); formatted by the real CLI (libraries only, whole tree with clients preserved, "
+            "or `pkg --preserve pkg`) sequentially and under seeded multi-worker schedules, up to five passes. Oracle "
+            "independent of pyrefact's own name collection: every definition the preserved files reference exists with the "
+            "same kind at the same place in the final tree, and every client that imported against the original tree imports "
+            "against the final one (fork). E5 kind preserve: format_code(x, preserve=P) on corpus inputs and generated "
+            "libraries keeps every top-level definition (and member of a preserved class) named in P. distinct = (tree, "
+            "reads-from map) resp. (input, preserve set); non-trivial = multi-worker / cross-read schedule resp. the input "
+            "was changed by the formatter."
+        ),
+        "batches": [
+            {"engine": "e3_pool", "label": "pool-preserve", "n": 72 if q else 6000, "kwargs": {"profile": "preserve", "schedules": 2}, "timeout": 900.0},
+            {"engine": "e5_optout", "label": "preserve-within-file", "n": 600 if q else 40000, "kwargs": {"kind": "preserve"}, "timeout": 300.0},
+        ],
+        "probes": ["preserve.referenced_definitions_checked", "preserve.clients_imported", "preserve.kind.method", "preserve.kind.variable", "preserve.definitions_checked"],
+        "assumptions": [
+            "methods are judged only when their class is referenced by the preserved files too (a class nobody names may be deleted as a whole)",
+            "which deleting / renaming rule fires depends on the generator; the family adds the schedule / pass / worker-history dimension",
+        ],
+    }
+
+
+def _c18_plan(prop, tier):
+    q = tier == "quick"
+    return {
+        "rule": (
+            "C18: E3 pool-sim profile imports: one run = a static library tree on disk in all layouts of the statement (plain "
+            "module, module defining __all__, package with __init__ re-exporting from a submodule by relative import, "
+            "re-export chain of depth 3 with an alias on the way, star re-export hub) plus 1-4 client modules importing drawn "
+            "objects in every statement form (from, from-as, import, import-as, star, duplicated, stacked with stdlib modules, "
+            "inside a function, stdlib imports) in shuffled order; only the clients are formatted, by the real CLI "
+            "sequentially and under seeded multi-worker schedules (safe mode in 30 % of the runs). Oracle by execution in a "
+            "fork: original and final text of each client are executed as two modules of one process (imported objects are "
+            "shared, identity is literal); the objects its functions return and its module level variables hold must be the "
+            "very same objects, definitions matched by position; libraries not passed to the tool must be unchanged. "
+            "distinct = (tree, reads-from map); non-trivial = a task with a cross-file read (tracing opened an imported "
+            "module) or a multi-worker schedule."
+        ),
+        "batches": [
+            {"engine": "e3_pool", "label": "pool-imports", "n": 90 if q else 8000, "kwargs": {"profile": "imports", "schedules": 2}, "timeout": 900.0},
+        ],
+        "probes": ["imports.clients_checked", "imports.clients_changed", "imports.import_statements_changed"],
+        "assumptions": [
+            "shape (i) of DESIGN 4/C18 only: libraries are static; generated objects are unique per definition site so a mis-resolved re-export is visible",
+            "coverage of import forms is generator-bound; what simulation adds is the layout x schedule x worker-history product",
+        ],
+    }
+
+
+_plan_prev4 = plan_for
+
+
+def plan_for(prop, tier):  # noqa: F811
+    if prop == "C08":
+        return _c08_plan(prop, tier)
+    if prop == "C18":
+        return _c18_plan(prop, tier)
+    return _plan_prev4(prop, tier)
